@@ -222,6 +222,12 @@ qb_log_blackbox_print_from_file(const char *bb_filename)
 	qb_ringbuffer_t *instance;
 	ssize_t bytes_read;
 	int max_size = 2 * QB_LOG_MAX_LEN;
+	/* Decoding a record reads its arguments from behind the format string
+	 * without knowing where the record ends. A damaged record can name at
+	 * most one directive per two format characters, each taking at most 8
+	 * bytes, so this much zeroed room behind the chunk keeps every such
+	 * read inside the buffer (and terminates every string). */
+	size_t chunk_pad = 8 * max_size;
 	char *chunk;
 	int fd;
 	int err = 0;
@@ -262,7 +268,7 @@ qb_log_blackbox_print_from_file(const char *bb_filename)
 	if (instance == NULL) {
 		return -EIO;
 	}
-	chunk = malloc(max_size);
+	chunk = malloc(max_size + chunk_pad);
 	if (!chunk) {
 		goto cleanup;
 	}
@@ -293,6 +299,7 @@ qb_log_blackbox_print_from_file(const char *bb_filename)
 			err = -EIO;
 			goto cleanup;
 		}
+		memset(chunk + bytes_read, 0, max_size + chunk_pad - bytes_read);
 		ptr = chunk;
 
 		/* lineno */
@@ -309,7 +316,7 @@ qb_log_blackbox_print_from_file(const char *bb_filename)
 
 		/* function size & name */
 		memcpy(&fn_size, ptr, sizeof(uint32_t));
-		if ((fn_size + BB_MIN_ENTRY_SIZE) > bytes_read) {
+		if (fn_size > bytes_read - BB_MIN_ENTRY_SIZE) {
 #ifndef S_SPLINT_S
 			printf("ERROR Corrupt file: fn_size way too big %" PRIu32 "\n", fn_size);
 			err = -EIO;
@@ -327,6 +334,11 @@ qb_log_blackbox_print_from_file(const char *bb_filename)
 
 		function = ptr;
 		ptr += fn_size;
+		if (function[fn_size - 1] != '\0') {
+			printf("ERROR Corrupt file: function name not terminated\n");
+			err = -EIO;
+			goto cleanup;
+		}
 
 		/* timestamp size & content */
 		if (have_timespecs) {
@@ -360,10 +372,21 @@ qb_log_blackbox_print_from_file(const char *bb_filename)
 		}
 
 		ptr += sizeof(uint32_t);
+		if (ptr + msg_len > chunk + bytes_read) {
+#ifndef S_SPLINT_S
+			printf("ERROR Corrupt file: msg_len beyond the record %" PRIu32 "\n", msg_len);
+			err = -EIO;
+#endif /* S_SPLINT_S */
+			goto cleanup;
+		}
 
 		/* message content */
 		len = qb_vsnprintf_deserialize(message, QB_LOG_MAX_LEN, ptr);
 		assert(len > 0);
+		if (len >= QB_LOG_MAX_LEN) {
+			/* the text filled the buffer */
+			len = QB_LOG_MAX_LEN - 1;
+		}
 		message[len] = '\0';
 		len--;
 		while (len > 0 && (message[len] == '\n' || message[len] == '\0')) {
